@@ -174,9 +174,20 @@ def main():
             return mod.replay(j)
         return generic_replay(j)
     mod = importlib.import_module("props." + a.prop.lower())
-    if hasattr(mod, "main"):
-        return mod.main(tier, seed)
-    return generic_check(mod, tier, seed)
+    try:
+        if hasattr(mod, "main"):
+            return mod.main(tier, seed)
+        return generic_check(mod, tier, seed)
+    except Exception:
+        # the machinery itself failed (typically: the implementation answered an oracle or harness request in a way no
+        # run on the unchanged tree does).  The property is then not shown to hold: report what was found so far, or
+        # name the step that no longer runs (no-failing-input-found).
+        import traceback
+        tb = traceback.format_exc()
+        sys.stderr.write(tb)
+        run = lv.CURRENT[-1] if lv.CURRENT else lv.Run(a.prop.upper(), tier, seed)
+        run.obligation(False, "the check ran to completion (model / implementation correspondence could be evaluated)", tb[-3000:])
+        return run.finish()
 
 
 if __name__ == "__main__":
